@@ -261,13 +261,15 @@ class World:
             return "Ok"
         if act == "ConcatEmpty":
             src = self.obj(a["x"])
-            self.vec[new[0]] = (src << []) if self.pick(2) == 0 else (src << Vector([]))
+            self.vec[new[0]] = [lambda: src << [], lambda: src << Vector([]), lambda: src << ()][self.pick(3)]()
             return "Ok"
         if act == "Drop":
             del self.vec[a["x"]]
             return "Ok"
         if act == "Write":
             return self.write(a)
+        if act == "WriteNone":
+            return self.write_none(a)
         if act == "WriteRow":
             t, r = a["x"], a["y"] - 1
             tab = self.tab[t]
@@ -444,6 +446,29 @@ class World:
                     raise Mismatch("leaked_write", {"a vector sharing the written storage changed": list(p)}, before_vals)
         return "Ok"
 
+    def write_none(self, a):
+        """a write that addresses no position, in every spelling"""
+        o = a["x"]
+        v = self.obj(o)
+        n = len(v)
+        filler = list(v)[0] if n and list(v)[0] is not None else 1
+        pos = self.column_pos(o)
+        forms = [("v[n:0] = x", lambda: v.__setitem__(slice(n, 0), filler)), ("v[n:0] = []", lambda: v.__setitem__(slice(n, 0), [])),
+                 ("v[0:0] = []", lambda: v.__setitem__(slice(0, 0), [])), ("v[all-False mask] = x", lambda: v.__setitem__([False] * n, filler)),
+                 ("v[all-False mask] = []", lambda: v.__setitem__([False] * n, [])), ("v[-1:0] = x", lambda: v.__setitem__(slice(-1, 0), filler)),
+                 ("v[::-1][n:] (v[n+2:n+5] = x)", lambda: v.__setitem__(slice(n + 2, n + 5), filler)), ("v[0:n:-1] = x", lambda: v.__setitem__(slice(0, n, -1), filler))]
+        if pos is not None:
+            tab, k = self.tab[pos[0]], pos[1]
+            forms += [("t[n:0, k] = x", lambda: tab.__setitem__((slice(n, 0), k), filler)), ("t[n:0, accessor] = []", lambda: tab.__setitem__((slice(n, 0), self.accessor(*pos)), [])),
+                      ("t.cols()[k][-1:0] = []", lambda: tab.cols()[k].__setitem__(slice(-1, 0), []))]
+        name, fn = forms[self.pick(len(forms))]
+        self.forms.append(name)
+        try:
+            fn()
+        except AliasError:
+            return "Refused"
+        return "Ok"
+
     def new_table(self, a, new):
         srcs = a["vs"]
         objs = [self.obj(o) for o in srcs]
@@ -457,6 +482,10 @@ class World:
         forms = ["Table([..])", "Vector([..])"]
         if len(objs) == 2 and all(v.schema() is not None for v in objs) and len({v.schema().kind for v in objs}) == 1:
             forms.append("v1 >> v2")        # `>>` refuses vectors of different typesafe kinds (precondition)
+        vnames = [v.name for v in objs]
+        if all(nm is not None for nm in vnames) and len(set(vnames)) == len(vnames) and len(lens) == 1:
+            # a dict of plain tuples - where the program still holds the very tuple a source vector was built over, that one
+            forms.append("Table({name: tuple})")
         if parent is not None:
             forms += ["t[:]", "t[all-True mask]", "t.copy()"]
             names = self.names(parent)
@@ -470,6 +499,9 @@ class World:
                 r = Table(list(objs))
             elif form == "Vector([..])":
                 r = Vector(list(objs))
+            elif form == "Table({name: tuple})":
+                held = list(self.tup.values())
+                r = Table({v.name: next((tp for tp in held if tp is v._underlying), tuple(v)) for v in objs})
             elif form == "v1 >> v2":
                 r = objs[0] >> objs[1]
             elif form == "t[:]":
@@ -516,7 +548,7 @@ def target_entity(w, a):
     ids = set()
     if act == "WriteRow":
         ids |= set(w.cols.get(a["x"], [])) | {a["x"]}
-    elif act in ("Write", "Rename"):
+    elif act in ("Write", "Rename", "WriteNone"):
         ids.add(a["x"])
         pos = w.column_pos(a["x"])
         if pos is not None:
@@ -691,7 +723,7 @@ def replay_case(case, variant):
             return fails
         except Exception as ex:    # noqa: BLE001
             if last:
-                clause = {"Write": "write_error", "NewTable": "ragged_outcome", "SetAttr": "setattr_error",
+                clause = {"Write": "write_error", "WriteNone": "write_error", "NewTable": "ragged_outcome", "SetAttr": "setattr_error",
                           "Lookup": "lookup"}.get(a["a"], "outcome")
                 if a["a"] == "Write" and a.get("nm") == "byname":
                     clause = "lookup"      # the column's advertised accessor did not resolve as an item-assignment key
@@ -699,9 +731,9 @@ def replay_case(case, variant):
             return fails
         if res != a["res"]:
             if last:
-                if a["a"] in ("Write", "WriteRow") and a["res"] == "Ok" and res == "Refused":
+                if a["a"] in ("Write", "WriteRow", "WriteNone") and a["res"] == "Ok" and res == "Refused":
                     fails.append(("spurious_refusal", k, res, a["res"], list(w.forms)))
-                elif a["a"] in ("Write", "WriteRow") and a["res"] == "Refused" and res == "Ok":
+                elif a["a"] in ("Write", "WriteRow", "WriteNone") and a["res"] == "Refused" and res == "Ok":
                     # a shared write that is performed copy-on-write is allowed as long as it stays
                     # local; the histories diverge here, so nothing further is compared
                     fails.append(("note_cow_instead_of_refusal", k, res, a["res"], list(w.forms)))
